@@ -129,11 +129,13 @@ PROPS = {
         "design_ref": "§6 C18",
         "level_text": "fault enumeration: every truncation offset of the request templates (2 in quick, all 7 in thorough) x {FIN, RST, hold} plus thousands of generated malformed / oversized / hostile connections, interleaved with continuous valid traffic; held on the faults injected, no claim about byte strings not generated",
         "level_note": "the strict HTTP/1.1 response grammar in harness/vmon/src/client.rs is the validity oracle; 'malformed' is only asserted for classes malformed by construction (oversized requests and overflowing sizes are judged for liveness and response validity only); answers to an h2 preface are not HTTP/1.1 and only liveness is judged there; thorough repeats the workload under an AddressSanitizer build",
-        "technique": "runtime monitoring with fault injection: exhaustive truncation + generated hostile traffic against real servers, strict response-grammar oracle, continuous health probes, panic monitor; ASan build in thorough",
+        "technique": "runtime monitoring with fault injection: exhaustive truncation + generated hostile traffic (HTTP/1.1 bytes, HTTP/2 stream resets, unallocatable announced sizes) against real servers in-process and in a watched child process, strict response-grammar oracle, continuous health probes, panic and process-exit monitor; ASan build in thorough",
         "engines": [
             {"name": "c18-hostile"},
+            {"name": "c18-proc"},
             {"name": "c18-tls", "bin": "vmon_tls", "package": "tlsmon"},
             asan("C18", "c18-hostile"),
+            asan("C18", "c18-proc"),
         ],
         "assumptions": ASSUME_COMMON,
     },
